@@ -293,8 +293,8 @@ var c01SweepIns = []string{"", "Z", "😀", "\n", "\r\n", "é\nя"}
 
 func init() {
 	Register(&Prop{
-		ID:   "C01",
-		Rule: "edit histories (open, 1-4 ranged/range-less changes per notification, close, re-open with restarted versions) over documents with ASCII/BMP/non-BMP characters, LF/CRLF, empty and no-final-newline; positions by class (origin, in line, line end, past line end, past document end); after every notification Server.GetDocument is compared with a reference UTF-16 client buffer, and a feature battery on the document is compared with the same battery on a twin document opened with the reference text. Plus an exhaustive sweep (every start/end pair on code-point boundaries x 6 replacement texts on fixed small documents) and wire histories against the built binary (the only driver that can send a ranged change at 0:0-0:0), judged by comparing its answers with a fresh in-process server opened on the reference text. Non-trivial = history with >=1 ranged change; distinct by hash of the history.",
+		ID:    "C01",
+		Rule:  "edit histories (open, 1-4 ranged/range-less changes per notification, close, re-open with restarted versions) over documents with ASCII/BMP/non-BMP characters, LF/CRLF, empty and no-final-newline; positions by class (origin, in line, line end, past line end, past document end); after every notification Server.GetDocument is compared with a reference UTF-16 client buffer, and a feature battery on the document is compared with the same battery on a twin document opened with the reference text. Plus an exhaustive sweep (every start/end pair on code-point boundaries x 6 replacement texts on fixed small documents) and wire histories against the built binary (the only driver that can send a ranged change at 0:0-0:0), judged by comparing its answers with a fresh in-process server opened on the reference text. Non-trivial = history with >=1 ranged change; distinct by hash of the history.",
 		Notes: []string{"lone CR line ends and positions inside a surrogate pair are outside the statement", "reference buffer is the trusted base"},
 		Cases: func(tier string) int64 {
 			h, sd, w := c01Counts(tier)
